@@ -781,6 +781,8 @@ class Engine:
                 for _ in range(b):
                     r = r * x
                 return r
+            if getattr(self.c, 'nonlinear', None) == 'uf':
+                return upow(to_z3(x, REAL), to_z3(y, REAL))      # an uninterpreted power: nothing is known about it
             raise OutOfSubset('power')
         raise OutOfSubset('binary operator %s' % type(op).__name__)
 
@@ -2703,6 +2705,7 @@ def _sb_lemma_wd_triangle(eng, st, node):
                                      patterns=[z3.MultiPattern(wd(G, x, z), wd(G, z, y))]))
 
 
+upow = z3.Function('upow', REAL, REAL, REAL)               # x ** y, uninterpreted (contracts with nonlinear='uf')
 invl = z3.Function('invl', A2R, A2R)      # invl(W): entrywise 1/w on the support of W, 0 elsewhere (the contract of bct.utils.invert, proved under C17)
 
 
